@@ -95,9 +95,9 @@ func harnessC03UpcastPairs() {
 	c03Pair(ops)
 }
 
-//verif:entry property=C03 tier=both bounds="re-entrancy: one call back into the same bus (publish other type, publish same type from a non-sequential handler, subscribe, unsubscribe, clear, clear-all, HasHandlers, HandlerCount, or a panic of the handler) issued from inside a handler, a filter, a before-publish hook or an after-publish hook; Sequential handler flag symbolic (self-delivery excluded as in the statement)" cover="reentrant-done"
+//verif:entry property=C03 tier=both bounds="re-entrancy: one call back into the same bus (publish other type, publish same type from a non-sequential handler, subscribe, unsubscribe, clear, clear-all, HasHandlers, HandlerCount, or a panic of the handler) issued from inside a handler, a filter, a before-publish hook, an after-publish hook, the panic handler (after a handler panic) or the persistence error handler (after a rejected append); Sequential handler flag symbolic (self-delivery excluded as in the statement)" cover="reentrant-done"
 func harnessC03Reentrant() {
-	where := vPick(4) // 0 handler, 1 filter, 2 before hook, 3 after hook
+	where := vPick(6) // 0 handler, 1 filter, 2 before hook, 3 after hook, 4 panic handler, 5 persistence error handler
 	what := vPick(9)
 	sequential := vBool()
 	var bus *EventBus
@@ -141,6 +141,16 @@ func harnessC03Reentrant() {
 	if where == 3 {
 		opts = append(opts, WithAfterPublishContext(func(ctx context.Context, t reflect.Type, e any) { action() }))
 	}
+	if where == 4 {
+		vAssume(what != 8)
+		opts = append(opts, WithPanicHandler(func(e any, t reflect.Type, v any) { action() }))
+	}
+	if where == 5 {
+		vAssume(what != 8)
+		// every append of the delivered type is rejected; the handler is told each time
+		opts = append(opts, WithStore(&flakyStore{inner: NewMemoryStore(), outcomes: []int{1, 1, 1, 1}}),
+			WithPersistenceErrorHandler(func(e any, t reflect.Type, err error) { action() }))
+	}
 	bus = New(opts...)
 	c01Log, c01Re = nil, nil
 	var so []SubscribeOption
@@ -154,6 +164,9 @@ func harnessC03Reentrant() {
 	Subscribe(bus, func(e evA) {
 		if where == 0 {
 			action()
+		}
+		if where == 4 {
+			panic("handler fails")
 		}
 	}, so...)
 	Subscribe(bus, c01HB[0])
